@@ -382,13 +382,16 @@ func c04Abstract(c *core.Ctx, r *core.Reporter) {
 			}
 			for _, ref := range *call.Referrers() {
 				bo, isBo := ref.(*ssa.BinOp)
-				if !isBo || bo.Op != token.EQL || !core.IsNilConst(bo.Y) {
+				if !isBo || (bo.Op != token.EQL && bo.Op != token.NEQ) || !core.IsNilConst(bo.Y) {
 					continue
 				}
 				for _, r2 := range *bo.Referrers() {
 					if iff, isIf := r2.(*ssa.If); isIf {
-						thenB, elseB := iff.Block().Succs[0], iff.Block().Succs[1]
-						if endsInPanic(thenB) && returnsValue(elseB, call) {
+						nilB, valB := iff.Block().Succs[0], iff.Block().Succs[1]
+						if bo.Op == token.NEQ { // `if completed != nil { return completed }; panic(…)`
+							nilB, valB = valB, nilB
+						}
+						if alwaysPanics(nilB, 0) && returnsValue(valB, call) {
 							ok = true
 						}
 					}
@@ -433,6 +436,14 @@ func guardsWithPanic(call *ssa.Call) bool {
 		return false
 	}
 	return check(call, 0)
+}
+
+// alwaysPanics: straight-line code from b ends in a panic.
+func alwaysPanics(b *ssa.BasicBlock, depth int) bool {
+	if endsInPanic(b) {
+		return true
+	}
+	return depth < 4 && len(b.Succs) == 1 && alwaysPanics(b.Succs[0], depth+1)
 }
 
 func endsInPanic(b *ssa.BasicBlock) bool {
